@@ -63,11 +63,32 @@ feature kern { pos g h -12; } kern;"""}
     return S
 
 
+def required_feature_font():
+    """pool font R: its only language systems have a REQUIRED feature, which is FeatureRecord #0 of
+    its feature list (the feature file syntax cannot say 'required': set after the build)"""
+    # Greek letters under the script 'grek' only: no other pool font has that script, so no language
+    # systems are merged (merging required features is a documented TODO of the merger, it asserts)
+    spec = {"kind": "ttf", "shapes": "mixed", "glyphs": ["one", "two", "three"], "coef": 9, "cmap": {0x3B1: "one", 0x3B2: "two", 0x3B3: "three"},
+            "fea": "languagesystem grek dflt; feature abcd { sub one by three; } abcd; feature liga { sub two two by one; } liga; feature kern { pos one two -19; } kern;"}
+    font = tinyfont.reload(tinyfont.build(spec))
+    gsub = font["GSUB"].table
+    tags = [fr.FeatureTag for fr in gsub.FeatureList.FeatureRecord]
+    assert tags[0] == "abcd", tags
+    for sr in gsub.ScriptList.ScriptRecord:
+        for ls in [sr.Script.DefaultLangSys] + [r.LangSys for r in sr.Script.LangSysRecord]:
+            if ls is not None and 0 in ls.FeatureIndex:
+                ls.FeatureIndex.remove(0)
+                ls.FeatureCount = len(ls.FeatureIndex)
+                ls.ReqFeatureIndex = 0
+    return tinyfont.to_bytes(font)
+
+
 def load_pool():
     if _POOL:
         return
     for k, s in specs().items():
         _POOL[k] = tinyfont.build_bytes(s)
+    _POOL["R"] = required_feature_font()
     for n, d in corpus.compiled_ttx():
         if n == "merge/data/CFFFont1.ttx":
             _POOL["X1"] = d
@@ -76,6 +97,8 @@ def load_pool():
 
 
 _SNAP = {}
+# the script the texts of a pool font are shaped under (default: latn, which falls back to DFLT)
+SCRIPT_OF = {"R": "grek"}
 
 
 def font_snapshot(key):
@@ -94,7 +117,7 @@ def font_snapshot(key):
         for n in (1, 2, 3):
             for s in itertools.product(alpha, repeat=n):
                 text = "".join(chr(c) for c in s)
-                shapes[text] = describe(hbf, hbf.shape(text=text, features=FEATURES))
+                shapes[text] = describe(hbf, hbf.shape(text=text, features=FEATURES, script=SCRIPT_OF.get(key)))
         _SNAP[key] = (chars, shapes)
     return _SNAP[key]
 
@@ -109,7 +132,7 @@ def describe(hbf, res):
 
 class Merge(Unit):
     name = "merge-lists"
-    rule = ("all ordered lists of 2..3 (thorough: 4 from the TrueType pool) fonts from the pool {A,B,C,D,E,H,M,K} (TrueType: disjoint, identical-duplicate, different-duplicate, no-layout, colliding glyph names, mark positioning + GDEF, class kerning + contextual substitution) and {F,G,X1,X2} (CFF) merged with Merger().merge; plus N (glyph names 'a', 'a.1': the merger's own renaming scheme) and U (unreferenced lookups in front of the used ones) in every pair and in every triple with A; plus every ordered triple merged in two steps, merge(merge(X,Y),Z) (a merged font as input); mixed flavours must raise; "
+    rule = ("all ordered lists of 2..3 (thorough: 4 from the TrueType pool) fonts from the pool {A,B,C,D,E,H,M,K} (TrueType: disjoint, identical-duplicate, different-duplicate, no-layout, colliding glyph names, mark positioning + GDEF, class kerning + contextual substitution) and {F,G,X1,X2} (CFF) merged with Merger().merge; plus N (glyph names 'a', 'a.1': the merger's own renaming scheme), U (unreferenced lookups in front of the used ones) and R (a required feature that is FeatureRecord #0) in every pair and in every triple with A; plus every ordered triple merged in two steps, merge(merge(X,Y),Z) (a merged font as input); mixed flavours must raise; "
             "oracle on the saved+reloaded result: every code point of the union maps to a glyph whose outline and advance equal those in the FIRST input supporting it; glyph names unique; for inputs whose character set is disjoint from all others in the list, every string of length <=3 over 4 of its characters shapes to glyphs with the same outlines/advances/offsets as with that input alone; distinct = each list")
     chunk = 4
     required_witnesses = ("duplicate identical glyph", "duplicate different glyph", "glyph name collision", "disjoint shaping compared", "CFF merge", "mixed flavour rejected", "merged font used as an input")
@@ -125,15 +148,15 @@ class Merge(Unit):
                 yield list(lst)
         # the two fonts built to collide with the merger's renaming / lookup pruning: every pair with
         # every other font, and every triple with A (same glyph names) and one more
-        for x in ("N", "U"):
-            for y in tt + [z for z in ("N", "U") if z != x]:
+        for x in ("N", "U", "R"):
+            for y in tt + [z for z in ("N", "U", "R") if z != x]:
                 yield [x, y]
                 yield [y, x]
             for y in [t for t in tt if t != "A"]:
                 for lst in itertools.permutations([x, "A", y], 3):
                     yield list(lst)
         # merged fonts as inputs (histories): merge(merge(X, Y), Z) is observed like merge(X, Y, Z)
-        nest = ["A", "B", "D", "H", "K", "N", "U"] if tier == "quick" else tt + ["N", "U"]
+        nest = ["A", "B", "D", "H", "K", "N", "U", "R"] if tier == "quick" else tt + ["N", "U", "R"]
         for lst in itertools.permutations(nest, 3):
             yield ["nested"] + list(lst)
         for n in (2, 3):
@@ -223,7 +246,7 @@ class Merge(Unit):
             if any(mine & set(snaps[j][0]) for j in range(len(keys)) if j != i):
                 continue
             for text, exp in snaps[i][1].items():
-                got = describe(hbf, hbf.shape(text=text, features=FEATURES))
+                got = describe(hbf, hbf.shape(text=text, features=FEATURES, script=SCRIPT_OF.get(k)))
                 if got != exp:
                     rec.violation("merge:shaping", "%s: text %r shapes differently than with input %d (%s) alone:\n merged: %s\n alone : %s" % (
                         keys, text, i, k, [(g[0][:40],) + g[1:] for g in got], [(g[0][:40],) + g[1:] for g in exp]))
